@@ -97,6 +97,15 @@ var c07RHS = []rhsGen{
 	{"path-nested", func(v val.Item) *refmodel.UExpr { return up(pth("m", "k", "z")) }},
 	{"path-list", func(v val.Item) *refmodel.UExpr { return up(pth("l", 2, 0)) }},
 	{"path-missing", func(v val.Item) *refmodel.UExpr { return up(pth("nope")) }},
+	// plain copies of attributes that other actions of the same expression modify in place
+	{"copy-number", func(v val.Item) *refmodel.UExpr { return up(pth("n")) }},
+	{"copy-ss", func(v val.Item) *refmodel.UExpr { return up(pth("ss")) }},
+	{"copy-ns", func(v val.Item) *refmodel.UExpr { return up(pth("ns")) }},
+	{"copy-bs", func(v val.Item) *refmodel.UExpr { return up(pth("bs")) }},
+	{"copy-list", func(v val.Item) *refmodel.UExpr { return up(pth("l2")) }},
+	{"copy-biglist", func(v val.Item) *refmodel.UExpr { return up(pth("l")) }},
+	{"copy-map", func(v val.Item) *refmodel.UExpr { return up(pth("m")) }},
+	{"copy-nested-number", func(v val.Item) *refmodel.UExpr { return up(pth("m", "k", "y")) }},
 	{"plus-pv", func(v val.Item) *refmodel.UExpr {
 		v[":i"] = val.Num("3")
 		return &refmodel.UExpr{Kind: "plus", Kids: []*refmodel.UExpr{up(pth("n")), uv(":i")}}
@@ -209,6 +218,41 @@ func c07Exhaustive() []c07Case {
 		out = append(out, c07Case{U: &refmodel.Update{Actions: []refmodel.Action{{Kind: g.kind, Path: g.path, RHS: uv(":v")}}}, Item: nil, Values: val.Item{":v": g.v}})
 	}
 	out = append(out, c07Case{U: &refmodel.Update{Actions: []refmodel.Action{{Kind: "REMOVE", Path: pth("s")}}}, Item: nil, Values: val.Item{}})
+	// a SET that copies an attribute together with an action that modifies the source in place,
+	// in every clause order: the copy must hold the pre-update value
+	type mut struct {
+		src  refmodel.Path
+		act  refmodel.Action
+		vals val.Item
+	}
+	muts := []mut{
+		{pth("n"), refmodel.Action{Kind: "ADD", Path: pth("n"), RHS: uv(":m")}, val.Item{":m": val.Num("5")}},
+		{pth("n"), refmodel.Action{Kind: "SET", Path: pth("n"), RHS: &refmodel.UExpr{Kind: "plus", Kids: []*refmodel.UExpr{up(pth("n")), uv(":m")}}}, val.Item{":m": val.Num("5")}},
+		{pth("ss"), refmodel.Action{Kind: "ADD", Path: pth("ss"), RHS: uv(":m")}, val.Item{":m": val.SS("zz")}},
+		{pth("ss"), refmodel.Action{Kind: "DELETE", Path: pth("ss"), RHS: uv(":m")}, val.Item{":m": val.SS("a")}},
+		{pth("ns"), refmodel.Action{Kind: "ADD", Path: pth("ns"), RHS: uv(":m")}, val.Item{":m": val.NS("9")}},
+		{pth("bs"), refmodel.Action{Kind: "DELETE", Path: pth("bs"), RHS: uv(":m")}, val.Item{":m": val.BS("a")}},
+		{pth("l2"), refmodel.Action{Kind: "REMOVE", Path: pth("l2", 0)}, val.Item{}},
+		{pth("l"), refmodel.Action{Kind: "SET", Path: pth("l", 0), RHS: uv(":m")}, val.Item{":m": val.Str("changed")}},
+		{pth("l"), refmodel.Action{Kind: "REMOVE", Path: pth("l", 1)}, val.Item{}},
+		{pth("m"), refmodel.Action{Kind: "SET", Path: pth("m", "x"), RHS: uv(":m")}, val.Item{":m": val.Str("changed")}},
+		{pth("m"), refmodel.Action{Kind: "REMOVE", Path: pth("m", "k", "y")}, val.Item{}},
+		{pth("m", "k"), refmodel.Action{Kind: "SET", Path: pth("m", "k", "y"), RHS: uv(":m")}, val.Item{":m": val.Num("77")}},
+		{pth("l", 2), refmodel.Action{Kind: "SET", Path: pth("l", 2, 0), RHS: uv(":m")}, val.Item{":m": val.Num("77")}},
+	}
+	orders := [][]string{{"SET", "REMOVE", "ADD", "DELETE"}, {"DELETE", "ADD", "REMOVE", "SET"}, {"ADD", "SET", "DELETE", "REMOVE"}}
+	for _, mu := range muts {
+		for _, ord := range orders {
+			for _, copyFirst := range []bool{true, false} {
+				cp := refmodel.Action{Kind: "SET", Path: pth("cpy"), RHS: up(mu.src)}
+				acts := []refmodel.Action{cp, mu.act}
+				if !copyFirst {
+					acts = []refmodel.Action{mu.act, cp}
+				}
+				out = append(out, c07Case{U: &refmodel.Update{Actions: acts, ClauseOrder: ord}, Item: c07BaseItem(r, 3), Values: mu.vals})
+			}
+		}
+	}
 	return out
 }
 
